@@ -188,7 +188,20 @@ def run(F, R, tier):
             # alg is set before the thumbprint / projection are taken (statement order)
             order = [n for n in H.walk(H.root(h)) if n.get("k") == "mcall" and n["name"] in ("set_alg", "set_kid", "to_public")]
             r2.require([n["name"] for n in order][:2] == ["set_alg", "set_kid"], (fn, "order"), "alg/kid are not set before the public projection is taken")
-    r2.floor(3)
+    # the compatibility table itself: a JWS algorithm is accepted for a key type only in the pairs below (BLS12381G2 keys are for BBS+
+    # proofs, no JWS algorithm goes with them)
+    COMPATIBLE = {("Ed25519", "EdDSA")}
+    cfn = "identity_storage::key_storage::memstore::check_key_alg_compatibility"
+    if r2.anchor(F.hir(cfn), cfn):
+        tabk = SR.Table(F, cfn, opaque=r"KeyStorageError::new$|with_custom_message$|fmt::format$", rule=r2)
+        acc = set()
+        for q in tabk.paths:
+            if SR.is_success(q.ret) and not SR.is_failure(q.ret):
+                kt_, al_ = SR.variant(q, SR.param(sym.param_name(F, cfn, 0, "key_type"))), SR.variant(q, SR.param(sym.param_name(F, cfn, 1, "alg")))
+                acc.add((kt_, al_))
+        r2.site("check_key_alg_compatibility accepts %s" % sorted(acc, key=str))
+        r2.require(acc == COMPATIBLE or not tabk.paths, (cfn, "compatible-pairs"), "check_key_alg_compatibility accepts %s, the compatible (key type, algorithm) pairs are %s" % (sorted(acc, key=str), sorted(COMPATIBLE)))
+    r2.floor(4)
 
     # ------------------------------------------------------------------ R3 insert
     r3 = R.rule("C15-R3", "T2+T9", "insert: key type ✓, is_private() ✓, alg present ∧ parsed ∧ compatible ✓ all dominate the store write; no parse error is swallowed")
